@@ -96,7 +96,7 @@ func collectSites(p *gen.Program) *c24Sites {
 	return s
 }
 
-var c24Mutations = []string{"undeclared-metric", "undefined-capref", "capref-outside-its-block", "undefined-decorator", "next-outside-decorator", "wrong-key-count", "redeclared-name", "unused-declaration", "invalid-regex", "regex-too-long", "int-division-by-literal-zero"}
+var c24Mutations = []string{"undeclared-metric", "undefined-capref", "capref-outside-its-block", "undefined-decorator", "next-outside-decorator", "wrong-key-count", "redeclared-name", "redeclared-name-other-kind", "unused-declaration", "invalid-regex", "regex-too-long", "int-division-by-literal-zero"}
 
 // mutate applies one defect-introducing mutation in place; ok=false if the
 // program has no eligible site.
@@ -270,6 +270,30 @@ func c24Mutate(rt *rapid.T, p *gen.Program, kind string) (ctx string, ok bool) {
 		m := *p.Metrics[0]
 		p.Metrics = append(p.Metrics, &m)
 		return "metric", true
+	case "redeclared-name-other-kind":
+		// the same name declared twice in one scope as two different kinds of
+		// thing; the later declaration is the one the program uses
+		var cands []string
+		for _, c := range p.Consts {
+			cands = append(cands, "const:"+c.Name)
+		}
+		for _, d := range p.Decos {
+			cands = append(cands, "deco:"+d.Name)
+		}
+		if len(cands) == 0 {
+			return "", false
+		}
+		pick := rapid.SampledFrom(cands).Draw(rt, "which")
+		name := pick[strings.Index(pick, ":")+1:]
+		if strings.HasPrefix(pick, "deco:") && rapid.Bool().Draw(rt, "constfirst") {
+			p.Consts = append(p.Consts, &gen.Const{Name: name, Re: "zz+"})
+			return "const-then-decorator", true
+		}
+		p.Metrics = append(p.Metrics, &gen.Metric{Name: name, Kind: rapid.SampledFrom([]string{"counter", "gauge"}).Draw(rt, "kind")})
+		if strings.HasPrefix(pick, "deco:") {
+			return "metric-then-decorator", true
+		}
+		return "metric-then-const", true
 	case "unused-declaration":
 		switch rapid.IntRange(0, 2).Draw(rt, "what") {
 		case 0:
@@ -288,7 +312,21 @@ func c24Mutate(rt *rapid.T, p *gen.Program, kind string) (ctx string, ok bool) {
 		pt := s.pats[rapid.IntRange(0, len(s.pats)-1).Draw(rt, "site")]
 		bad := rapid.SampledFrom([]string{"(", "[a-", "a**", `\8`, "(?P<x", "x{3,1}"}).Draw(rt, "bad")
 		if kind == "regex-too-long" {
-			bad = strings.Repeat("a", 1100)
+			switch rapid.IntRange(0, 2).Draw(rt, "longform") {
+			case 0:
+				bad = strings.Repeat("a", 1100)
+			case 1:
+				// two literals, each within the limit, concatenated with +
+				pt.Toks = append(pt.Toks, gen.PatTok{Kind: "lit", Lit: strings.Repeat("a", 600)})
+				pt.Split = append(pt.Split, len(pt.Toks))
+				pt.Toks = append(pt.Toks, gen.PatTok{Kind: "lit", Lit: strings.Repeat("b", 600)})
+				return "pattern-concatenation", true
+			default:
+				// two const fragments, each within the limit
+				p.Consts = append(p.Consts, &gen.Const{Name: "LONGA", Re: strings.Repeat("a", 600), Inst: strings.Repeat("a", 600)}, &gen.Const{Name: "LONGB", Re: strings.Repeat("b", 600), Inst: strings.Repeat("b", 600)})
+				pt.Toks = append(pt.Toks, gen.PatTok{Kind: "const", Lit: "LONGA"}, gen.PatTok{Kind: "const", Lit: "LONGB"})
+				return "pattern-const-fragments", true
+			}
 		}
 		pt.Toks = append(pt.Toks, gen.PatTok{Kind: "lit", Lit: bad})
 		return "pattern", true
